@@ -281,6 +281,7 @@ func lemmaTickMonotone(intervalStart uint64, intervalsPerDay uint32, t1, t2 uint
 //@ props C16
 //@ option noimplicit
 //@ assumepre catalog.Directory.AddTimeBucket.schema "observation outside C16: item/category count mismatch is not checked"
+//@ assumepre executor.Writer.WriteRecords.tbi "the bucket description comes from the catalog (loaded, and its path names its year file)"
 //@ loop 0 invariant true
 //@ loop 1 invariant true
 
